@@ -85,6 +85,9 @@ enum Entry<C> {
 pub struct VersionedOperation<V> {
     op: Operation<V>,
     epoch: Epoch,
+    /// Position of the operation in the order in which operations were staged
+    /// for this key; breaks ties inside one epoch.
+    seq: u64,
 }
 
 impl<V> Eq for VersionedOperation<V> {}
@@ -120,6 +123,7 @@ enum ConcurrentLogMessage<V> {
 struct ConcurrentLog<V> {
     log: RwLock<BinaryHeap<VersionedOperation<V>>>,
     deferred_messages: SegQueue<ConcurrentLogMessage<V>>,
+    next_seq: std::sync::atomic::AtomicU64,
 }
 
 impl<V: Eq + Hash + Clone> ConcurrentLog<V> {
@@ -127,6 +131,7 @@ impl<V: Eq + Hash + Clone> ConcurrentLog<V> {
         Self {
             log: RwLock::new(BinaryHeap::new()),
             deferred_messages: SegQueue::new(),
+            next_seq: std::sync::atomic::AtomicU64::new(0),
         }
     }
 
@@ -180,17 +185,23 @@ impl<V: Eq + Hash + Clone> ConcurrentLog<V> {
         let mut added = HashSet::with_hasher(FxBuildHasher::default());
         let mut removed = HashSet::with_hasher(FxBuildHasher::default());
 
-        for op in log.iter() {
+        // Replay the staged operations in the order they were issued; the
+        // last operation on an element decides (the heap's internal order is
+        // arbitrary, and an insert must not merely cancel a staged remove:
+        // the store image the overlay is applied to may already contain
+        // either of them).
+        let mut ops: Vec<&VersionedOperation<V>> = log.iter().collect();
+        ops.sort_unstable_by_key(|op| (op.epoch, op.seq));
+
+        for op in ops {
             match &op.op {
                 Operation::Insert(v) => {
-                    if removed.remove(v).not() {
-                        added.insert(v.clone());
-                    }
+                    removed.remove(v);
+                    added.insert(v.clone());
                 }
                 Operation::Remove(v) => {
-                    if added.remove(v).not() {
-                        removed.insert(v.clone());
-                    }
+                    added.remove(v);
+                    removed.insert(v.clone());
                 }
             }
         }
@@ -533,8 +544,9 @@ impl<
 
         // apply the operation to the log
         {
+            let seq = log.next_seq.fetch_add(1, Ordering::SeqCst);
             log.apply_message(ConcurrentLogMessage::AppendOperation(
-                VersionedOperation { op: op.clone(), epoch },
+                VersionedOperation { op: op.clone(), epoch, seq },
             ));
         }
 
